@@ -86,14 +86,7 @@ func (w *world) execOp(ti, oi int, op *proto.Op, st *opState) {
 				st.res.Err = fmt.Sprintf("step limit exceeded after %d steps at site %d", sl.Steps, sl.Site)
 				return
 			}
-			stack := string(debug.Stack())
-			// keep the frames below the panic, drop harness frames
-			if i := strings.Index(stack, "panic("); i >= 0 {
-				stack = stack[i:]
-			}
-			if len(stack) > 1500 {
-				stack = stack[:1500]
-			}
+			stack := cleanStack(string(debug.Stack()))
 			st.res.Panic = fmt.Sprintf("%v\n%s", r, stack)
 			st.res.OK = false
 		}
@@ -414,6 +407,52 @@ func (w *world) execOp(ti, oi int, op *proto.Op, st *opState) {
 	default:
 		st.res.Err = "harness: unknown op kind " + op.Kind
 	}
+}
+
+// cleanStack keeps function names and file:line of the frames below the
+// panic and drops everything that varies between processes (goroutine ids,
+// argument words, pointers, pc offsets), so that a recorded panic is
+// comparable between two runs.
+func cleanStack(stack string) string {
+	lines := strings.Split(stack, "\n")
+	var out []string
+	seenPanic := false
+	for _, l := range lines {
+		if !seenPanic {
+			if strings.HasPrefix(l, "panic(") {
+				seenPanic = true
+			}
+			continue
+		}
+		if strings.HasPrefix(l, "\t") {
+			l = strings.TrimSpace(l)
+			if i := strings.Index(l, " +0x"); i >= 0 {
+				l = l[:i]
+			}
+			if i := strings.LastIndex(l, "/src/"); i >= 0 && strings.Contains(l, "naga-") {
+				l = l[i+5:]
+			}
+			if len(out) > 0 {
+				out[len(out)-1] += " @ " + l
+			}
+			continue
+		}
+		if i := strings.LastIndexByte(l, '('); i > 0 {
+			l = l[:i]
+		}
+		if strings.Contains(l, "zverif/worker") || strings.HasPrefix(l, "runtime.") || strings.HasPrefix(l, "created by") {
+			if strings.Contains(l, "zverif/worker") {
+				break
+			}
+			out = append(out, l)
+			continue
+		}
+		out = append(out, l)
+		if len(out) >= 12 {
+			break
+		}
+	}
+	return strings.Join(out, "\n")
 }
 
 func describe(s proto.Source) (mi proto.ModuleInfo) {
